@@ -58,7 +58,7 @@ def gen_history(draw):
             steps.append({"k": "destroy", "which": k.split("-")[1], "n": draw(st.integers(0, 50)),
                           "batch": draw(st.sampled_from([None, None, "then-fail", "then-fail-continue", "then-ok", "after-ok",
                                                          "then-probe", "then-probe", "read-then-probe",
-                                                         "wrap-then-probe"])),
+                                                         "wrap-then-probe", "wrap-then-probe"])),
                           "paged": draw(st.booleans()),
                           "alias": draw(st.sampled_from([None, None, "0%s", " %s", "%s.0", "+%s"]))})
             live -= 1
